@@ -118,6 +118,9 @@ def run(ctx):
     chars = [chr(c) for c in range(0x20, 0x7F) if chr(c) not in "\\"] + [c for c in pool_in if ord(c) >= 0xA0]
     chars += [chr(rng.randrange(0x100, 0x3000)) for _ in range(120 if not ctx.thorough else 600)]
     chars += ["€", "λ", "\U0001F600"]
+    # characters outside the table whose compatibility / case / accent folding lies inside it
+    chars += list("№\u00a0…²Ａｂﬁ™½①ⅣÀéÿİǅ\u2002\u2212\uff0e")
+    chars += [c for c in (chr(rng.randrange(0x2000, 0x2200)) for _ in range(60)) if c not in table_chars]
     for ch in chars:
         inside = ch in table_chars
         for form in ("ascii", "char", "dchar"):
@@ -144,6 +147,33 @@ def run(ctx):
             else:
                 if r.outcome != "failed" or "invalid-character" not in r.error_ids():
                     ctx.violation("an unencodable character does not surface as an assembly error", {"source": src},
+                                  expected="failure with invalid-character", observed=r.summary())
+    # ---- the name in a tape header is text in the output charset too: given explicitly, taken from the output path, taken
+    # from the source file name
+    import os
+    for ch in chars:
+        if ch in "\"'/\\\t\r\n\x00" or ord(ch) < 0x20 or ch == " ":
+            continue
+        inside = ch in table_chars
+        for form in ("tape-explicit", "tape-path", "tape-file"):
+            nm = "ab" + ch + "c"
+            d = None
+            if form == "tape-explicit":
+                files = [("/w/p.mac", "nop\nmake_wav \"o.wav\", \"%s\"\n" % nm)]
+            elif form == "tape-path":
+                files = [("/w/p.mac", "nop\n%s \"dir/%s.wav\"\n" % (rng.choice(["make_wav", "make_turbo_wav"]), nm))]
+            else:
+                files = [("/w/%s.mac" % nm, "nop\nmake_wav\n")]
+            r = impl.assemble(files)
+            ctx.case(("asm", form, ch))
+            ctx.count("assembler-" + form)
+            if inside:
+                want = nm.encode("bk").ljust(16, b" ")
+                if r.outcome != "ok" or len(r.emitted) != 1 or bytes(r.emitted[0][4]) != want:
+                    ctx.violation("a table character in a tape name is not written as its byte", {"files": files}, expected=want.hex(), observed=r.summary())
+            else:
+                if r.outcome != "failed" or "invalid-character" not in r.error_ids():
+                    ctx.violation("an unencodable character in a tape name does not surface as an assembly error", {"files": files},
                                   expected="failure with invalid-character", observed=r.summary())
     ctx.assumptions = ["Python's 'koi8-r' codec is the reference for KOI8-R in the direct oracle (the Lean theorem uses the frozen Spec table)"]
 
